@@ -12,16 +12,19 @@ def run(out, tier, seed):
     from cascade.low.core import DatasetId, WorkerId
     import cascade.controller.report as report
     ds = [DatasetId("t", "0"), DatasetId("", ""), DatasetId("a.b", "10")]
-    ws = [WorkerId("h0", "w0"), WorkerId("", "w12")]
+    # identifiers are free-form strings: the pool carries every character the code base itself uses as a separator in reprs / addresses (. : / space)
+    ws = [WorkerId("h0", "w0"), WorkerId("", "w12"), WorkerId("node1.cluster.local", "w0"), WorkerId("10.0.0.1:5555", "gpu.1"), WorkerId("h.", ".w /x")]
+    ds += [DatasetId("t.u:v", "a.b"), DatasetId("x y/z", ".")]
     insts = []
     for d, w in itertools.product(ds, ws):
+        h0 = w.host or "h0"
         insts += [msg.Syn(0, "tcp://x:1"), msg.Syn(2**40, ""), msg.Ack(0), msg.Ack(2**33),
                   msg.TaskSequence(w, ["a", "b"], {d}), msg.TaskSequence(w, [], set()), msg.TaskFailure(w, None, "boom"), msg.TaskFailure(w, "t", ""),
-                  msg.DatasetPublished(w, d, None), msg.DatasetPublished("h0", d, 2**32), msg.DatasetPurge(d),
-                  msg.DatasetTransmitCommand("h0", "h1", "tcp://y:2", d, 2**32 + 1),
+                  msg.DatasetPublished(w, d, None), msg.DatasetPublished(h0, d, 2**32), msg.DatasetPurge(d),
+                  msg.DatasetTransmitCommand(h0, "h1", "tcp://y:2", d, 2**32 + 1),
                   msg.DatasetTransmitPayload(msg.DatasetTransmitPayloadHeader("tcp://z:3", 7, d, "cloudpickle.loads"), b"\x00" * 5),
-                  msg.DatasetTransmitFailure("h0", "x"), msg.ExecutorFailure("h0", "y"), msg.ExecutorExit("h0"),
-                  msg.ExecutorRegistration("h0", "m", "d", [msg.Worker(w, 1, 0, 1024)]), msg.ExecutorShutdown(), msg.WorkerReady(w), msg.WorkerShutdown()]
+                  msg.DatasetTransmitFailure(h0, "x"), msg.ExecutorFailure(h0, "y"), msg.ExecutorExit(h0),
+                  msg.ExecutorRegistration(h0, "m", "d", [msg.Worker(w, 1, 0, 1024)]), msg.ExecutorShutdown(), msg.WorkerReady(w), msg.WorkerShutdown()]
     for m in insts:
         cases += 1
         try:
@@ -52,7 +55,7 @@ def run(out, tier, seed):
         samples += samp
     except Exception as e:  # noqa
         out.notes.append(f"gateway stand-in skipped: {e!r}")
-    out.add_bounded("pickle/JSON encodings", "enumerated instances", "every executor message class x 6 id combinations (serde round trip, and framed by the real send / callback / send_data then decoded by the real _recv_one); 3 controller reports; "
+    out.add_bounded("pickle/JSON encodings", "enumerated instances", "every executor message class x 25 id combinations (ids with every separator character the code uses: . : / space, empty strings) (serde round trip, and framed by the real send / callback / send_data then decoded by the real _recv_one); 3 controller reports; "
                     "gateway requests/responses and JobInstance JSON for 4 job shapes", cases, cases, time.time() - t0, samples, failures)
 
 
